@@ -30,9 +30,20 @@ def outcome(fn, text):
     except GraphQLSyntaxError:
         return "syntax"
     except RecursionError:
-        return "recursion"
+        return "recursion" if nesting_depth(text) > 100 else "raised:RecursionError"
     except Exception as e:  # noqa: BLE001
         return "raised:" + type(e).__name__
+
+
+def nesting_depth(text):
+    d = m = 0
+    for ch in text:
+        if ch in "{[(":
+            d += 1
+            m = max(m, d)
+        elif ch in "}])":
+            d -= 1
+    return m
 
 
 def wf_response(res):
@@ -217,7 +228,11 @@ def run(tier):
             "{ e l }", "{ __schema { types { name } } }", "{ a", "{ zz }", "query Q($v: Int!) { s(n: $v) }",
             "subscription S { a }", "subscription { ... @defer(label: 5) { a } }", "subscription { a @skip(if: 3) }",
             "subscription { ... @include(if: $zz) { a } }", "{ ... @defer(label: 5, if: 3) { a } l @stream(initialCount: \"x\") }",
-            "query Q($w: In) { i(v: $w) }", "query Q($v: [Int!]) { a }", "{ s(n: 1, x: \"\\ud800\") }", "fragment F on Query { a } { ...F ...F }"]
+            "query Q($w: In) { i(v: $w) }", "query Q($v: [Int!]) { a }",
+            "mutation { ...F } fragment F on Mutation { m ...F }", "subscription { ...F } fragment F on Subscription { a ...F }",
+            "{ ...F } fragment F on Query { a ...G } fragment G on Query { o { ...F } ...F }",
+            "mutation { ...F @defer } fragment F on Mutation { ...G } fragment G on Mutation { m ...F @defer }",
+            "{ o { ...F } } fragment F on Query { o { ...F } }", "{ s(n: 1, x: \"\\ud800\") }", "fragment F on Query { a } { ...F ...F }"]
     for i in range(30 if quick else 400):
         g = gen_doc.Gen(rng, depth=2)
         docs.append(gen_doc.join_random(g.operation(), rng))
@@ -245,7 +260,8 @@ def run(tier):
                 res = graphql_sync(schema, d, root_value=root, variable_values=vars_, operation_name=op)
                 bad = wf_response(res)
             except RecursionError:
-                bad = None
+                # only tolerated beyond the property's nesting bound
+                bad = None if nesting_depth(d) > 100 else "graphql_sync raised RecursionError on a document of nesting depth <= 100"
             except Exception as e:  # noqa: BLE001
                 bad = f"graphql_sync raised {type(e).__name__}: {e!r}"[:200]
             nreq += 1
